@@ -45,6 +45,13 @@ def run(R):
     ok, badthm = R.prove()
     quick = R.tier == "quick"
     ops, meta = CS.gen_stream(R, 2500 if quick else 60000, entries=("rn", "r"), big_frac=0.06)
+    # results at the limit of the output field: the three methods whose salt length is bounded only by CRYPT_OUTPUT_SIZE, every salt
+    # length that puts the result within a few characters of 384, in every spelling of the salt's end (seeded/C06b)
+    for m, head, alpha in (("sunmd5", b"$md5$", S.A64), ("sunmd5", b"$md5,rounds=7$", S.A64), ("sha1crypt", b"$sha1$3$", S.A64), ("scrypt", b"$7$66..../....", S.A64)):
+        for sl in (range(330, 372) if not quick else list(range(340, 364))):
+            salt = S.rs(R.rng, alpha, sl)
+            for end in (b"", b"$", b"$$", b"$$x", b"$" + S.rs(R.rng, S.A64, 22)):
+                ops.append(CS.crypt_op(R.rng.choice(["rn", "r"]), 0, b"pw", head + salt + end)); meta.append((m, "limit:" + ("bare" if not end else "dollar" * end.count(b"$")), 2, len(head) + sl + len(end)))
     ops, meta, il, ml = CS.run_budgeted(R, ops, meta, group_starts=list(range(len(ops))))
     diffs = compare(R, ops, il, ml, CS.proj_crypt, "hash shape")
     bad = []
@@ -69,6 +76,10 @@ def run(R):
     nsucc = 0
     for op, m, line in zip(ops, meta, il):
         f = fields(line)
+        if f.get("ret") != "NULL" and f.get("out") == "unterminated":
+            bad.append((op, "the call reports success but the output field holds no NUL-terminated string (the result is not shorter than CRYPT_OUTPUT_SIZE)", line)); continue
+        if f.get("app") == "0":
+            bad.append((op, "the call modified the application-owned fields of the data object (a terminator written past the output field)", line))
         if f.get("ret") == "NULL" or f.get("out", "2a").startswith("2a") or f.get("out") in ("?", "unterminated"): continue
         nsucc += 1
         H = unhx(f["out"]); setting = unhx(op.split(" ")[4])
